@@ -50,6 +50,8 @@ async fn run_case(addr: SocketAddr, certs: &Certs, t: &[&str], seed: u64) -> any
     let items: Vec<String> = (0..n).map(|i| payload(i, class, seed)).collect();
     let batch_cfg = if batch == "-" { None } else { let (s, ms) = batch.split_once(':').unwrap(); Some(BatchConfig::new(s.parse()?, if ms == "max" { Duration::MAX } else { Duration::from_millis(ms.parse()?) })) };
 
+    let mut refused: Vec<usize> = vec![];
+    let mut finish_err = false;
     macro_rules! drive {
         ($enc:expr, $dec:expr, $to:expr, $from:expr) => {{
             let mut sb = client.subscriber(&topic).with_decoder($dec);
@@ -60,8 +62,9 @@ async fn run_case(addr: SocketAddr, certs: &Certs, t: &[&str], seed: u64) -> any
             if algo != "-" { pb = pb.with_compression(DynComp(compressor(algo))); }
             if let Some(b) = batch_cfg.clone() { pb = pb.with_batching(b); }
             let mut publ = Some(pb.open().await?);
-            for it in &items { publ.as_mut().unwrap().send($to(it)).await?; }
-            if fin { publ.take().unwrap().finish().await?; } else { publ.as_mut().unwrap().flush().await?; tokio::time::sleep(Duration::from_millis(30)).await; }
+            // a `send` that returns an error does not end the case: the item was not accepted, the caller carries on
+            for (i, it) in items.iter().enumerate() { if publ.as_mut().unwrap().send($to(it)).await.is_err() { refused.push(i); } }
+            if fin { if publ.take().unwrap().finish().await.is_err() { finish_err = true; } } else { publ.as_mut().unwrap().flush().await?; tokio::time::sleep(Duration::from_millis(30)).await; }
             let mut got: Vec<String> = vec![];
             let mut errs = 0usize;
             loop {
@@ -83,7 +86,43 @@ async fn run_case(addr: SocketAddr, certs: &Certs, t: &[&str], seed: u64) -> any
         _ => drive!(BincodeCodec::<(u32, String)>::default(), BincodeCodec::<(u32, String)>::default(), |s: &String| (7u32, s.clone()), |v: (u32, String)| v.1),
     };
     let idx: Vec<String> = got.iter().map(|g| match index_of(g) { Some(i) if items.get(i) == Some(g) => i.to_string(), _ => "?".to_string() }).collect();
-    Ok(format!("{} errs={errs}", if idx.is_empty() { "-".to_string() } else { idx.join(",") }))
+    Ok(format!("{} errs={errs}{}{}", if idx.is_empty() { "-".to_string() } else { idx.join(",") },
+        if refused.is_empty() { String::new() } else { format!(" refused={}", refused.iter().map(|i| i.to_string()).collect::<Vec<_>>().join(",")) },
+        if finish_err { " finish=err" } else { "" }))
+}
+
+/// the subscriber must yield exactly the items whose `send` returned Ok, in order
+fn judge(line: &str, n: usize, batch: &str, fin: bool) -> Result<(), String> {
+    let mut parts = line.split(' ');
+    let yielded: Vec<usize> = parts.next().unwrap_or("-").split(',').filter_map(|x| x.parse().ok()).collect();
+    let mut refused: Vec<usize> = vec![];
+    let mut finish_err = false;
+    let mut errs = 0usize;
+    for p in parts {
+        if let Some(r) = p.strip_prefix("refused=") { refused = r.split(',').filter_map(|x| x.parse().ok()).collect(); }
+        if let Some(e) = p.strip_prefix("errs=") { errs = e.parse().unwrap_or(1); }
+        if p == "finish=err" { finish_err = true; }
+    }
+    let accepted: Vec<usize> = (0..n).filter(|i| !refused.contains(i)).collect();
+    if yielded == accepted && errs == 0 && !finish_err { return Ok(()); }
+    // one particular loss has a name (known_findings.json): with batching, the `send` that frames a batch larger than
+    // the frame limit fails, and the members of that batch - accepted earlier - are the items that are missing
+    let size: usize = batch.split(':').next().and_then(|s| s.parse().ok()).unwrap_or(0);
+    if batch != "-" && errs == 0 && size >= 1 && (!refused.is_empty() || finish_err) {
+        let mut lost: Vec<usize> = vec![];
+        let mut members: Vec<usize> = vec![];
+        for i in 0..n {
+            if refused.contains(&i) { lost.extend(members.drain(..)); continue; }
+            if members.len() >= size { members.clear(); }
+            members.push(i);
+        }
+        if finish_err { lost.extend(members.drain(..)); }
+        let expect: Vec<usize> = accepted.iter().copied().filter(|i| !lost.contains(i)).collect();
+        if yielded == expect && !lost.is_empty() {
+            return Err(format!("C03: items {lost:?} were accepted (send returned Ok) and then dropped with their batch when it outgrew the frame limit; the subscriber yielded [{line}]"));
+        }
+    }
+    Err(format!("C03: subscriber yielded [{line}] for {n} items sent (batch {batch}, finish={fin}): not exactly the accepted items {accepted:?}"))
 }
 
 pub fn run(cfg: &Cfg) {
@@ -132,6 +171,11 @@ pub fn run(cfg: &Cfg) {
             cases.push(format!("pp string {algo} 4:60000 6 Z400000 y"));
         }
         cases.push("pp bytes zstd:bal - 3 Z1048000 y".into());
+        // without compression: a message that is too large on its own is refused (and nothing else is lost); a batch
+        // that outgrows the limit - known finding - takes its members with it
+        cases.push("pp string - - 3 X1048568 y".into());
+        cases.push("pp string - 4:60000 6 Z400000 y".into());
+        cases.push("pp bytes - 2:60000 5 Z600000 y".into());
         // a subscriber that only starts reading after the publisher has sent more than its stream window holds, while
         // the publisher stays connected and silent: the tail must still be flushed to it
         cases.push("pp string - - 3 Z600000 n".into());
@@ -175,7 +219,7 @@ pub fn run(cfg: &Cfg) {
             Ok(Err(e)) => (format!("ERROR {}", format!("{e:?}").replace('\n', " ").chars().take(200).collect::<String>()), Err(format!("C03: client error {e}"))),
             Ok(Ok(line)) => {
                 let fin = t[6] == "y";
-                let m = if line == want || (!fin && t[3] != "-") { Ok(()) } else { Err(format!("C03: subscriber yielded [{line}] for {n} items sent (batch {}, finish={fin})", t[3])) };
+                let m = if line == want || (!fin && t[3] != "-") { Ok(()) } else { judge(&line, n, t[3], fin) };
                 (line, m)
             }
         };
